@@ -235,6 +235,58 @@ def resave_roundtrip(via_txn: bool, m1: int, m2: int, i: int) -> bool:
             w.close()
 
 
+class _Boom(Exception):
+    pass
+
+
+def rollback_retry_roundtrip(phase: bool, fail_kind: int, i: int) -> bool:
+    """
+    post: _
+    """
+    # A transaction saves the stage and then fails (an exception after store_stage, or a failing
+    # second statement); it rolls back.  The same in-memory object - unchanged - is saved again and
+    # the transaction commits.  What is read back is what that object holds (context / outputs included).
+    with hx.Path("rollback_retry_roundtrip") as P:
+        ph = hx.decide(phase)
+        fk = hx.pick(fail_kind, 2)
+        w = world2.SWorld(name="rbretry", json_stub=True)
+        try:
+            wf, s0, s1, t1, t2 = _build(i, i + 1, i + 2, 3, True, False, "a", ST[1], ST[1], ST[4], ST[1], JT[0], SP[0], None, WT[0])
+            w.store.store(wf)
+            cur = w.store.retrieve_stage(s0.id)
+            cur.context = {"progress": i, "nest": {"l": [i, "x"]}}
+            cur.outputs = {"result": i + 7}
+            cur.status = WorkflowStatus.RUNNING
+            failed = False
+            try:
+                with w.store.transaction(w.queue) as txn:
+                    txn.store_stage(cur, expected_phase="RUNNING") if ph else txn.store_stage(cur)
+                    if fk == 0:
+                        raise _Boom("fault after the stage was written")
+                    txn.store_stage(cur)  # a second write of the same object inside the transaction: stale version -> ConcurrencyError
+            except Exception:
+                failed = True
+            with hx.native():
+                P.reached((ph, fk, failed))
+            if not failed:
+                return True
+            mid = w.store.retrieve_stage(s0.id)
+            if mid.context.get("progress") == i and "progress" not in s0.context:
+                return P.fail("C19/rollback_retry/rolled_back_write_is_visible", {"fail_kind": fk})
+            with w.store.transaction(w.queue) as txn:
+                txn.store_stage(cur, expected_phase="RUNNING") if ph else txn.store_stage(cur)
+            back = w.store.retrieve_stage(s0.id)
+            for f in ("status", "context", "outputs", "start_time", "end_time"):
+                if getattr(back, f) != getattr(cur, f):
+                    return P.fail("C19/rollback_retry/stage.%s_is_not_what_the_retry_saved" % f, {"with_expected_phase": ph, "fail_kind": ["exception", "second write"][fk], "field": f})
+            full = next(x for x in w.store.retrieve(wf.id).stages if x.id == s0.id)
+            if full.context != cur.context or full.outputs != cur.outputs:
+                return P.fail("C19/rollback_retry/retrieve_differs_from_retrieve_stage", {})
+            return True
+        finally:
+            w.close()
+
+
 def _fill(cls, i1, i2, b, s: str, st, ost, phase):
     kw = {}
     for f in dataclasses.fields(cls):
@@ -332,6 +384,7 @@ PLAN = [
     ("roundtrip_enums_workflow", "quick", 280),
     ("roundtrip_enums_stage", "quick", 280),
     ("resave_roundtrip", "quick", 280),
+    ("rollback_retry_roundtrip", "quick", 200),
     ("roundtrip_statuses", "thorough", 1500),
     ("message_roundtrip", "quick", 280),
     ("message_status_roundtrip", "quick", 280),
@@ -344,6 +397,7 @@ META = {
                   "src/stabilize/queue/sqlite/queue.py:push/poll_one", "src/stabilize/queue/messages.py:create_message_from_dict"],
     "bounds": ["workflow of 2 stages / 2 tasks; integer and boolean fields and dict leaves symbolic (unbounded ints); strings from {'', 'a', non-ASCII+quotes+backslash, 300 chars, and free text spelling an enum member name or a JSON literal}; every WorkflowStatus / JoinType / SplitType / SyntheticStageOwner / WorkflowType member (one dimension at a time + combinations listed in the harness)",
                "a stored stage saved again twice (plain store_stage and inside a transaction) with cleared / falsy / new values of every updatable stage and task field, every ordered pair, integer values symbolic",
+               "a transaction that saves the stage and then fails (exception / failing second statement), rolled back, then the same unchanged object saved again",
                "every class of MESSAGE_TYPES, pushed directly and inside a transaction; CompleteTask with every status x original_status"],
     "stubs": ["json: dumps/loads replaced by a value-carrying stub with the contract loads(dumps(x)) == x (CPython's json, unicode escaping, floats are outside)",
               "SymDB instead of SQLite (validated differentially on every run)", "ids/clock stubs"],
